@@ -47,7 +47,7 @@ Proof.
   intros sv tb deser t v Hg. unfold struct_gate_ok in Hg. apply andb_true_iff in Hg as [Hc Ha].
   unfold retains. rewrite Hc.
   destruct (passes (t_setattr tb) true (top_pyty t v)) eqn:Hp; [|reflexivity].
-  apply (passes_atomic _ _ Ha) in Hp. cbn [andb]. generalize true. revert v Hp.
+  apply (passes_atomic _ _ Ha) in Hp. cbn [andb]. generalize true at 2. revert v Hp.
   induction t as [b| |o|l|o|b|l|o|l|t IH]; intros v Hp iimm; cbn [top_pyty] in Hp; try discriminate.
   - reflexivity.
   - cbn [pos]. rewrite (atomic_value_unreachable v Hp). apply andb_false_r.
@@ -62,6 +62,12 @@ Proof.
   intros sv tb y Ha Hin. unfold retains. cbn [top_pyty pos fset_passes negb orb andb].
   unfold passes. rewrite (witness_in_table _ _ Ha Hin), (witness_reach _ Ha). rewrite orb_true_r. reflexivity.
 Qed.
+
+Lemma immstruct_leaks_typed : forall sv tb y,
+    atomic_ty y = false -> In y (t_setattr tb) ->
+    pyty_of (witness_of y) = (match y with YUnknownTy => YList | _ => y end) /\
+    retains sv tb OwnImmStruct false TAny (witness_of y) = true.
+Proof. intros sv tb y Ha Hin. split; [destruct y; try discriminate; reflexivity|apply immstruct_leaks; assumption]. Qed.
 
 (* ---------------------------------------------------------------- fields declared immutable: Field.__set__ + wrappers *)
 
@@ -163,13 +169,13 @@ Section PlainTyped.
 Variables (sv : sites) (tb : ctables).
 
 Definition safe_at (t : aty) : Prop :=
-  forall deser v, typed_inside t = true -> shape_ok deser t v = true -> pos sv tb deser false false t v = false.
+  forall deser v, typed_inside t = true -> shape_ok deser t v = true -> pos sv tb deser false false false t v = false.
 
 Lemma zip_any_false : forall deser l, Forall safe_at l -> all_typed l = true -> forall xs,
     (fix all (l : list aty) (xs : list vshape) {struct l} : bool :=
        match l, xs with [], [] => true | a :: l', x :: xs' => shape_ok deser a x && all l' xs' | _, _ => false end) l xs = true ->
     (fix any (l : list aty) (xs : list vshape) {struct l} : bool :=
-       match l, xs with a :: l', x :: xs' => pos sv tb deser false false a x || any l' xs' | _, _ => false end) l xs = false.
+       match l, xs with a :: l', x :: xs' => pos sv tb deser false false false a x || any l' xs' | _, _ => false end) l xs = false.
 Proof.
   intros deser l H. induction H as [|a l Ha Hl IHl]; intros Ht xs Hxs.
   - reflexivity.
@@ -181,7 +187,7 @@ Lemma zip_any_extra_false : forall deser l, Forall safe_at l -> all_typed l = tr
     (fix all (l : list aty) (xs : list vshape) {struct l} : bool :=
        match l, xs with [], [] => true | a :: l', x :: xs' => shape_ok deser a x && all l' xs' | _, _ => false end) l xs = true ->
     (fix any (l : list aty) (xs : list vshape) {struct l} : bool :=
-       match l, xs with a :: l', x :: xs' => pos sv tb deser false false a x || any l' xs' | _, _ => any_reach xs end) l xs = false.
+       match l, xs with a :: l', x :: xs' => pos sv tb deser false false false a x || any l' xs' | _, _ => any_reach xs end) l xs = false.
 Proof.
   intros deser l H. induction H as [|a l Ha Hl IHl]; intros Ht xs Hxs.
   - destruct xs; [reflexivity|discriminate].
@@ -199,7 +205,7 @@ Lemma zip_rec_false : forall l, Forall safe_at l -> all_typed l = true -> forall
        end) l xs = true ->
     (fix any (l : list aty) (xs : list (option vshape)) {struct l} : bool :=
        match l, xs with
-       | a :: l', Some x :: xs' => pos sv tb true false false a x || any l' xs'
+       | a :: l', Some x :: xs' => pos sv tb true false false false a x || any l' xs'
        | _ :: l', None :: xs' => any l' xs'
        | _, _ => false
        end) l xs = false.
